@@ -19,6 +19,7 @@ import (
 	"net/http/httputil"
 	"net/url"
 	"slices"
+	"strings"
 	"time"
 )
 
@@ -157,7 +158,14 @@ func (d *HTTPProxyDialer) DialContextR(ctx context.Context, network, addr string
 		for k, vv := range headers {
 			// ProxyConnectHeader may already have been through the rules GetProxyConnectHeader applies
 			// (the header of a client's CONNECT): replacing the key would drop the client's own values.
-			if containsAll(req.Header[k], vv) {
+			// (the client's field may sit under another spelling of its name: a rule may have respelt it)
+			var have []string
+			for hk, hv := range req.Header {
+				if strings.EqualFold(hk, k) {
+					have = append(have, hv...)
+				}
+			}
+			if containsAll(have, vv) {
 				continue
 			}
 			req.Header[k] = vv
